@@ -413,8 +413,11 @@ func valEqual(s *Shape, a, b *Val) bool {
 		if a.Nil != b.Nil || len(a.M) != len(b.M) {
 			return false
 		}
-		for i := range a.M {
-			if !valEqual(s.Key, a.M[i][0], b.M[i][0]) || !valEqual(s.E, a.M[i][1], b.M[i][1]) {
+		am, bm := append([][2]*Val(nil), a.M...), append([][2]*Val(nil), b.M...)
+		sortEntries(s.Key, am)
+		sortEntries(s.Key, bm)
+		for i := range am {
+			if !valEqual(s.Key, am[i][0], bm[i][0]) || !valEqual(s.E, am[i][1], bm[i][1]) {
 				return false
 			}
 		}
